@@ -384,3 +384,14 @@ Proof.
   destruct (emit_float_head m e) as (c & w & E & Hc). pose proof (emit_float_one_token d m e) as T.
   rewrite E in *. unfold sql_lex in *. rewrite (run_minus_digit d c w Hc). rewrite T. reflexivity.
 Qed.
+
+(* every float literal the lexer lets through is one translate_literal emits: its out-of-range error is reachable only
+   through values computed by the compiler (constant folding), never from a literal of the source *)
+Theorem lexed_float_emitted units tbl rows s m e r :
+  lex_literal_checked units tbl rows s = Some (LFloat m e, r) -> exists t, emit_float_rust m e = Some t.
+Proof.
+  unfold lex_literal_checked. destruct (lex_literal_u units tbl rows s) as [[l r0]|]; [|discriminate].
+  destruct l; try (intro H; injection H as H _; discriminate).
+  destruct (overflows mant e10) eqn:O; [discriminate|]. intro H. injection H as <- <- <-.
+  unfold emit_float_rust. rewrite O. eexists. reflexivity.
+Qed.
